@@ -164,16 +164,26 @@ func c14faulty(c *wk.Ctx, i int, rng *rand.Rand) {
 	var trace []string
 	step := func() bool {
 		switch x := rng.Intn(10); {
-		case x < 4: // client write, valid
-			next++
-			err := writer.SetLevel(next)
-			accepted, last = append(accepted, next), next
-			trace = append(trace, fmt.Sprintf("SetLevel(%d) -> %v", next, err))
-		case x < 6: // service-side update
-			next++
-			err := impl.Helper.UpdateLevel(next)
-			accepted, last = append(accepted, next), next
-			trace = append(trace, fmt.Sprintf("service UpdateLevel(%d) -> %v", next, err))
+		case x < 4: // client write, valid (now and then the value that is already stored)
+			v := next + 1
+			if rng.Intn(4) == 0 && len(accepted) > 0 {
+				v = last
+			} else {
+				next++
+			}
+			err := writer.SetLevel(v)
+			accepted, last = append(accepted, v), v
+			trace = append(trace, fmt.Sprintf("SetLevel(%d) -> %v", v, err))
+		case x < 6: // service-side update (now and then of the value that is already stored: still a write)
+			v := next + 1
+			if rng.Intn(3) == 0 && len(accepted) > 0 {
+				v = last
+			} else {
+				next++
+			}
+			err := impl.Helper.UpdateLevel(v)
+			accepted, last = append(accepted, v), v
+			trace = append(trace, fmt.Sprintf("service UpdateLevel(%d) -> %v", v, err))
 		case x < 8: // rejected by the validator
 			v := -1 - int32(rng.Intn(100))
 			err := writer.SetLevel(v)
@@ -200,8 +210,13 @@ func c14faulty(c *wk.Ctx, i int, rng *rand.Rand) {
 			return
 		}
 	}
-	atomic.StoreInt32(&fl.streams[subs[victim].conn].fail, 1)
-	trace = append(trace, fmt.Sprintf("-- link towards subscriber %d refuses writes from here on", victim))
+	if rng.Intn(3) == 0 {
+		victim = -1 // no link fails in this history
+		detail["failing_link_is_subscriber"] = "none"
+	} else {
+		atomic.StoreInt32(&fl.streams[subs[victim].conn].fail, 1)
+		trace = append(trace, fmt.Sprintf("-- link towards subscriber %d refuses writes from here on", victim))
+	}
 	if rng.Intn(2) == 0 {
 		// a subscriber that joins while the link is failing
 		s, err := subscribe()
